@@ -1,0 +1,26 @@
+//go:build verif
+
+// Package verifhook provides the call sites the /verif runtime monitors use to widen thread
+// interleavings and to record that internal steps were reached (build tag "verif").
+package verifhook
+
+import "sync/atomic"
+
+var policy atomic.Value // func(site string)
+
+// Install sets the policy called at every site (nil removes it). Safe for concurrent use.
+func Install(f func(site string)) {
+	if f == nil {
+		policy.Store(func(string) {})
+		return
+	}
+
+	policy.Store(f)
+}
+
+// At calls the installed policy with the name of the site.
+func At(site string) {
+	if f, ok := policy.Load().(func(string)); ok && f != nil {
+		f(site)
+	}
+}
